@@ -26,6 +26,8 @@ def units(tier):
         add("D=2 cancel=%d child" % c, D=2, cancel=c, in_child=True)
     add("D=2 cancel=0 stubborn=1", D=2, cancel=0, stubborn=1, shields=(False, False))
     add("D=2 cancel=1 stubborn=1", D=2, cancel=1, stubborn=1, shields=(False, False))
+    add("D=2 cancel=0 cancel2=1 stubborn=1 (two scopes cancelled back to back, task possibly runnable)", D=2, cancel=0, cancel2=1, stubborn=1, shields=(False, False), J=2)
+    add("D=2 cancel=1 cancel2=0 stubborn=1", D=2, cancel=1, cancel2=0, stubborn=1, shields=(False, False), J=1)
     add("D=2 pre_cancel=1", D=2, pre_cancel=1)
     add("D=2 cancel=0 child eager", D=2, cancel=0, in_child=True, eager=True)
     add("D=2 pre_cancel=0 toggle", D=2, pre_cancel=0, toggle=(1, False), shields=(False, True))
@@ -51,6 +53,7 @@ def units(tier):
                 tag = "".join("S" if x else "-" for x in shv)
                 add("D=4 cancel=3 cancel2=0 shields=%s" % tag, D=4, cancel=3, cancel2=0, shields=shv, T=1, J=1, post0=True)
     add("D=1 deadline initially inf or finite, re-armed (cancelled by its deadline)", D=1, deadlines=(0,), redeadline=(0,), dl_may_be_inf=True, shields=(False,))
+    add("D=1 deadline moved twice (e.g. to infinity and back)", D=1, deadlines=(0,), redeadline=(0,), redeadline2=True, shields=(False,), J=1)
     add("D=2 outer deadline, inner shield sym", D=2, deadlines=(0,), shields="sym")
     for env in (("group",), ("outer",)):
         us.append({"name": "tg shielded-spawn env=%s" % env[0], "fn": tg_scn.scn, "budget_s": B,
